@@ -74,6 +74,18 @@ func (eng *Engine) verifyFunction(fn *ssa.Function, con *Contract, pkg *PkgInfo)
 			vc.sc.assert(t.term)
 		}
 	}
+	if fn.Name() == "init" && fn.Synthetic != "" && fn.Pkg != nil {
+		// the package initialiser runs once: its guard flag is still false on entry
+		vc.sc.assert(not(vc.region(init, "g:"+fn.Pkg.Pkg.Name()+".init$guard", 0, "Bool")))
+	}
+	// invariants over this package's variables (established by its initialiser)
+	if fn.Name() != "init" || fn.Synthetic == "" {
+		for _, gi := range eng.cs.GlobalInvs {
+			if pkg != nil && gi.PkgPath == pkg.PkgPath {
+				vc.sc.assert(fc.evalBool(gi.Clause.Expr, fc.env(init, init)))
+			}
+		}
+	}
 	// vacuity canary: the precondition must be satisfiable
 	pre := &Obligation{Name: eng.shortFn(fn) + "/vacuity/precondition-satisfiable#0", Kind: "vacuity", Fn: eng.shortFn(fn), Goal: "false", Pos: vc.sc.pos(), VC: vc, Expect: "sat"}
 	fc.obls = append(fc.obls, pre)
@@ -176,9 +188,18 @@ func (fc *FnCtx) loopHead(li *loopInfo, st *State) {
 		if !ok {
 			break
 		}
+		if phi.Comment == "rangeindex" {
+			// implicit invariant of `for i := range x`: the hidden index stays in [-1, maxLen]
+			// (checked on entry here and on every back edge in backEdge)
+			e := fc.val(phi)
+			fc.oblig("inv-init", fmt.Sprintf("loop%d/range-index in [-1, len]", li.index), and(app("<=", "(- 1)", e.S), app("<=", e.S, maxLen)), b.Instrs[0].Pos())
+		}
 		v := fc.freshVal("loop_"+phiName(phi), phi.Type())
 		fc.vals[phi] = v
 		fc.assume(fc.typeFacts(v, st.NA))
+		if phi.Comment == "rangeindex" {
+			fc.assume(and(app("<=", "(- 1)", v.S), app("<=", v.S, maxLen)))
+		}
 	}
 	fc.havocLoopRegions(li, st)
 	na := vc.sc.fresh("NA", "Int")
@@ -208,9 +229,6 @@ func (fc *FnCtx) backEdge(li *loopInfo, from *ssa.BasicBlock, k int, st *State) 
 	fc.cur = from
 	defer func() { fc.reach[from] = saved }()
 	spec := li.spec
-	if spec == nil {
-		return
-	}
 	// phi values along this edge
 	pi := -1
 	cnt := 0
@@ -231,11 +249,19 @@ func (fc *FnCtx) backEdge(li *loopInfo, from *ssa.BasicBlock, k int, st *State) 
 		}
 		over[phi] = fc.val(phi.Edges[pi])
 	}
-	env := fc.envAtLoop(li, st, over)
 	pos := from.Instrs[len(from.Instrs)-1].Pos()
 	if !pos.IsValid() {
 		pos = li.header.Instrs[0].Pos()
 	}
+	for phi, v := range over {
+		if phi.Comment == "rangeindex" {
+			fc.oblig("inv-preserve", fmt.Sprintf("loop%d/range-index in [-1, len]", li.index), and(app("<=", "(- 1)", v.S), app("<=", v.S, maxLen)), pos)
+		}
+	}
+	if spec == nil {
+		return
+	}
+	env := fc.envAtLoop(li, st, over)
 	for i, c := range spec.Invariants {
 		fc.oblig("inv-preserve", fmt.Sprintf("loop%d/%d %s", li.index, i, c.Text), fc.evalBool(c.Expr, env), pos)
 	}
@@ -291,6 +317,7 @@ func (fc *FnCtx) execInstr(in ssa.Instruction, st *State) {
 		n := fc.val(in.Len)
 		c := fc.val(in.Cap)
 		fc.oblig("make-neg", fc.instrText(in), and(app("<=", "0", n.S), app("<=", n.S, c.S)), in.Pos())
+		fc.makeHooks(in, n, st)
 		r := vc.alloc(st)
 		et := in.Type().Underlying().(*types.Slice).Elem()
 		vc.initBacking(st, r, et)
